@@ -29,7 +29,18 @@ def read_monitor(ctx, outdir, mode, prefixes):
     return seen
 
 
+KERNEL_THEOREMS = ["Slock.Engine.doLock_eq_generated", "Slock.Engine.countEqual_eq_generated", "Slock.Engine.checkLockedEqual_eq_generated"]
+
+
+def check_kernels(ctx):
+    """G3 tie: the decision kernels regenerated from the Go source on this run equal the ones M-ENGINE uses (proved)."""
+    if ctx.lake_build(["Slock.Proofs.Kernels"], exe=False):
+        ctx.audit("Slock.Proofs.Kernels", KERNEL_THEOREMS)
+
+
 def run_engine(ctx, prefixes, n_quick=250, n_thorough=4000, mode="engine", extra=None, ops=40):
+    if mode == "engine":
+        check_kernels(ctx)
     exe = ctx.build_harness("server", only=ENGINE_FILES)
     if not exe:
         return
